@@ -230,10 +230,12 @@ def get_and_wrap(w):
     w.one(kdrv.get(target, fmt=E.KeyFormatType.RAW))
     w.one(kdrv.get(target, fmt=E.KeyFormatType.PKCS_8), 'format conversion')
     w.one(kdrv.get(target, compression=E.KeyCompressionType.EC_PUBLIC_KEY_TYPE_UNCOMPRESSED), 'compression')
-    op = w.any('OPAQUE_DATA')
-    if op:
-        w.one(kdrv.get(op, fmt=E.KeyFormatType.RAW), 'format on opaque')
-        w.one(kdrv.get(op, wrap=wrap_spec(kek)), 'wrap opaque')
+    for ot in (OT.OPAQUE_DATA, OT.CERTIFICATE):
+        val = w.can.new('object-value:' + ot.name)
+        op = w.uid_of(w.one(kdrv.register(ot, kdrv.secret_for(ot, val)), 'register fresh ' + ot.name))
+        if op:
+            w.one(kdrv.get(op, fmt=E.KeyFormatType.RAW), 'format on ' + ot.name)
+            w.one(kdrv.get(op, wrap=wrap_spec(kek)), 'wrap ' + ot.name)
     pre = reg_sym(w, n=16, activate=False, kind='kek-preactive')
     nowrap = reg_sym(w, n=16, mask=(MASK.ENCRYPT,), kind='kek-nowrapbit')
     sd = reg_secret_data(w, 13)
